@@ -263,8 +263,10 @@ def unit_job(jid, op, lines):
     return '@unit %s %s\n%s\n@end\n' % (jid, op, enc_lines(lines))
 
 
-def compile_job(jid, src, args=(), files=(), want=('funcs',), repeat=1, name=None, probes=()):
+def compile_job(jid, src, args=(), files=(), want=('funcs',), repeat=1, name=None, probes=(), prename=None):
     o = ['@compile %s' % jid]
+    if prename:
+        o.append('prename ' + hx(prename))
     for a in args:
         o.append('arg ' + hx(a))
     for n, c in files:
